@@ -270,7 +270,8 @@ def _eliminate(stmts, k, tail):
             out.append(new)
             return out, allr
         raise NotInlinable("return inside %s" % type(st).__name__)
-    return out, False
+    # (a list that ends by raising never falls off its end either)
+    return out, bool(out) and isinstance(out[-1], ast.Raise)
 
 
 class Expander:
@@ -896,7 +897,9 @@ class Expander:
                             return self.visit(e)
                     # hoist into a temporary when nothing observable is evaluated before the call
                     if self.guarded == 0 and first_effect[0] is whole and isinstance(st, (ast.If, ast.Return, ast.Assign, ast.AnnAssign, ast.Expr, ast.AugAssign, ast.Raise, ast.Assert)) \
-                            and not field.startswith("targets"):
+                            and not field.startswith("targets") \
+                            and not (isinstance(st, ast.Assign) and len(st.targets) == 1 and isinstance(st.targets[0], ast.Name) and st.value is whole):
+                        # (`t = f(..)` itself is the hoisted form: if it could not be expanded as a statement, hoisting it again would not end)
                         exp.counter += 1
                         tmp = "%s_result__inl%d" % (t.name.lstrip("_"), exp.counter)
                         exp._names.add(tmp)
